@@ -217,27 +217,30 @@ fn @name@() {
     # ---------------------------------------------------------------- sets in environments: `{c, $}` / `{$, c}` / `{c, d}`
     # context_match_set takes the set as a slice (R5: stack array). Alternatives are tried in the order written, the first
     # one that holds decides how far the cursor moves (a boundary consumes nothing), a failed set restores the cursor.
+    # (a matrix alternative, shape ("MI", True), ran past 25 minutes: out of reach like matrices in environments)
     set_shapes = [("IS", True), ("SI", True), ("II", True), ("IS", False)] if tier == "thorough" else [("IS", True)] + [[("SI", True)], [("II", True)]][seed % 2]
     for (kinds, fw) in set_shapes:
         nm = "c03_set_%s_%s" % (kinds.replace("$", "S"), "fw" if fw else "bw")
         alts = []
         for j, k in enumerate(kinds):
-            alts.append("Item::new(ParseElement::Ipa(c%d, None), P)" % j if k == "I" else "Item::new(ParseElement::SyllBound, P)")
+            alts.append("Item::new(ParseElement::Ipa(c%d, None), P)" % j if k == "I" else "Item::new(ParseElement::Matrix(mat(15, mpol), None), P)" if k == "M" else "Item::new(ParseElement::SyllBound, P)")
         # reference: first alternative (in written order) that holds at flat position q of word [x0].[x1 x2]; returns consumed count
         def ref(q, at_start):
             out = ["let mut hit: Option<usize> = None;"]
             for j, k in enumerate(kinds):
                 if k == "I":
                     out.append("if hit.is_none() && xs[%d] == c%d { hit = Some(1); }" % (q, j))
+                elif k == "M":
+                    out.append("if hit.is_none() && ref_match_feat(&xs[%d], 15, mpol) { hit = Some(1); }" % q)
                 else:
                     out.append("if hit.is_none() && %s { hit = Some(0); }" % ("true" if at_start else "false"))
             return " ".join(out)
-        hs.append(G.H(nm, "environment-set", "subrule", G.T(HDR8 + """
+        hs.append(G.H(nm, "environment-set", "subrule", G.T((HDR if "M" in kinds else HDR8) + """
 fn @name@() {
     // word [x0].[x1 x2] (handed to the matcher @dirdesc@); set {@kinds@} met at the start of the second syllable and in its middle
     let x0 = any_seg(); let x1 = any_seg(); let x2 = any_seg();
     kani::assume(x1 != x2);
-    let c0 = any_seg(); let c1 = any_seg();
+    let c0 = any_seg(); let c1 = any_seg(); let mpol: bool = kani::any();
     let mut w = empty_word();
     w.syllables.push(syll_of(&[x0], any_stress(), kani::any()));
     w.syllables.push(syll_of(&[x1, x2], any_stress(), kani::any()));
@@ -262,7 +265,7 @@ fn @name@() {
     }
     std::mem::forget(sub); std::mem::forget(w); std::mem::forget(set);
 }
-""", name=nm, kinds=", ".join("c%d" % j if k == "I" else "$" for j, k in enumerate(kinds)), alts=", ".join(alts), fw="true" if fw else "false",
+""", name=nm, kinds=", ".join("c%d" % j if k == "I" else "[±round]" if k == "M" else "$" for j, k in enumerate(kinds)), alts=", ".join(alts), fw="true" if fw else "false",
             dirdesc="as it is" if fw else "as the REVERSED word of [x2 x1].[x0]: same structure, the matcher only differs in `forwards`",
             ref_start=ref(1, True), ref_mid=ref(2, False),
             cov_start=("kani::cover!(hit == Some(1)); " if kinds[0] == "I" else "") + ("kani::cover!(hit == Some(0));" if "S" in kinds else "kani::cover!(hit.is_none());")), shared=[G.SUBRULE_SHARED, SHARED],
